@@ -230,6 +230,17 @@ class Model:
         m.src = src; m.snk = snk; m.nstreams = len(src)
         return m
 
+    def relabel(self, sigma):
+        """the same flowsheet with unit object k playing the role of unit sigma[k]"""
+        inv = {r: k for k, r in enumerate(sigma)}
+        m = Model(); m.n = self.n
+        m.ins = [list(self.ins[sigma[k]]) for k in range(self.n)]
+        m.outs = [list(self.outs[sigma[k]]) for k in range(self.n)]
+        m.src = [None if a is None else inv[a] for a in self.src]
+        m.snk = [None if b is None else inv[b] for b in self.snk]
+        m.nstreams = self.nstreams
+        return m
+
     def edges(self):
         return [(a, b, k) for k, (a, b) in enumerate(zip(self.src, self.snk)) if a is not None and b is not None]
 
@@ -278,7 +289,7 @@ class Model:
 
 
 class St:
-    __slots__ = ('config', 'model', 'units', 'streams', 'spare', 'last', 'calls')
+    __slots__ = ('config', 'model', 'units', 'streams', 'spare', 'last', 'calls', 'built', 'phase', 'modelB')
 
 
 def _shape(net, lab, depth=0):
@@ -300,11 +311,13 @@ def _shape(net, lab, depth=0):
 class C19(System):
     nontrivial_per_config = True
 
-    def __init__(self, name, gen_q, gen_t, orders='all', history=False, depth_q=1, depth_t=1, prio=False):
+    def __init__(self, name, gen_q, gen_t, orders='all', history=False, depth_q=1, depth_t=1, prio=False, twice=False, rebuild=False):
         self.name = name
         self._gen = {'quick': gen_q, 'thorough': gen_t}
         self.orders = orders
         self.history = history
+        self.twice = twice or history or rebuild      # build every network twice in a row and demand the identical result
+        self.rebuild = rebuild
         self._dq, self._dt = depth_q, depth_t
         self.prio = prio
         self._desc = {}
@@ -335,6 +348,7 @@ class C19(System):
     # ---- real objects ----------------------------------------------------------------------------------
     def build(self, config):
         _load()
+        if self.rebuild: return self._build_rebuild(config)
         n, M, B, F, P, layout, hs = config[:7]
         prio = config[7] if len(config) > 7 else None
         m = Model.from_config(config)
@@ -363,8 +377,49 @@ class C19(System):
         if prio is not None:
             feeds = [k for k in range(ns) if m.src[k] is None]
             st.streams[feeds[prio]].set_feed_priority(0)
-        st.last = None; st.calls = 0
+        st.last = None; st.calls = 0; st.built = (); st.phase = 0; st.modelB = None
         return st
+
+    @staticmethod
+    def _maxport_config(n, M, layout, hs):
+        indeg = [0] * n; outdeg = [0] * n
+        for (i, j), m in zip(pairs_of(n), M): outdeg[i] += m; indeg[j] += m
+        return (n, M, (0,) * len(M), tuple(3 - d for d in indeg), tuple(3 - d for d in outdeg), layout, hs)
+
+    def _build_rebuild(self, config):
+        """config = ('rb', n, MA, MB, sigma, layout, hs): n units with 3 inlet and 3 outlet ports each, piped as flowsheet A (edge multiset MA, every free
+        port carries a feed / product); the action 'repipe' later pipes THE SAME unit objects as flowsheet B with unit k in the role sigma[k]"""
+        _, n, MA, MB, sigma, layout, hs = config
+        mA = Model.from_config(self._maxport_config(n, MA, layout, hs))
+        mB = Model.from_config(self._maxport_config(n, MB, layout, hs)).relabel(sigma)
+        st = St(); st.config = config; st.model = mA; st.modelB = mB
+        st.streams = []
+        for k in range(mA.nstreams):
+            x = _S(None); x._k = k; x._h = (100 + k) if hs == 0 else (1000 - k); st.streams.append(x)
+        st.spare = []
+        cls = _ucls(3, 3)
+        st.units = []
+        for i in range(n):
+            u = cls.__new__(cls); u._k = i; u._h = (i + 1) if hs == 0 else (50 - i)
+            cls.__init__(u, None, ins=[st.streams[k] for k in mA.ins[i]], outs=[st.streams[k] for k in mA.outs[i]])
+            st.units.append(u)
+        st.last = None; st.calls = 0; st.built = (); st.phase = 0
+        self._check_wiring(st, harness=True)
+        return st
+
+    def _repipe(self, st):
+        tmo = _tmo
+        mB = st.modelB; hs = st.config[6]
+        new = []
+        for k in range(mB.nstreams):
+            x = _S(None); x._k = k; x._h = (500 + k) if hs == 0 else (1500 - k); new.append(x)
+        with tmo.network.IgnoreDockingWarnings():
+            for i, u in enumerate(st.units):
+                for p, k in enumerate(mB.ins[i]): u.ins[p] = new[k]
+                for p, k in enumerate(mB.outs[i]): u.outs[p] = new[k]
+        st.streams = new; st.model = mB; st.phase = 2
+        self._check_wiring(st)
+        return ('repipe',)
 
     def canon(self, st):
         units = tuple((tuple(getattr(x, '_k', '?') if isinstance(x, _S) else type(x).__name__ for x in u._ins._streams),
@@ -373,11 +428,20 @@ class C19(System):
         streams = tuple((None if s._source is None else s._source._k, None if s._sink is None else s._sink._k)
                         for s in st.streams + st.spare)
         tmo = _tmo
-        return (st.config[0], st.config[5:], units, streams, len(tmo.AbstractStream.feed_priorities), len(tmo.network.disjunctions))
+        if self.rebuild:
+            return (st.config, st.phase, units, streams, len(tmo.AbstractStream.feed_priorities), len(tmo.network.disjunctions))
+        # `built`: the wirings on which a network has already been built with THESE unit objects in this execution.  The library may keep state keyed by
+        # the unit / stream objects (memo dicts, default arguments, attributes on units) that the harness cannot enumerate; a state in which a network was built
+        # is therefore never merged with one in which none was.
+        return (st.config[0], st.config[5:], units, streams, len(tmo.AbstractStream.feed_priorities), len(tmo.network.disjunctions), st.built)
 
     # ---- actions -----------------------------------------------------------------------------------------
     def actions(self, st):
         n = st.model.n
+        if self.rebuild:
+            if st.phase == 0: return [('net', tuple(range(n))), ('net', tuple(range(n))[::-1])]     # build on A first (two orders; both reach the same state)
+            if st.phase == 1: return [('repipe',)]
+            return [('net', p) for p in itertools.permutations(range(n))]
         acts = []
         if not self.history or st.model.in_quantifier():
             if self.orders == 'all':
@@ -406,7 +470,14 @@ class C19(System):
     # ---- one step ------------------------------------------------------------------------------------------
     def step(self, st, a):
         if a[0] == 'net':
-            return self._net(st, a[1])
+            obs = self._net(st, a[1])
+            if self.rebuild and st.phase == 0: st.phase = 1
+            if self.history:
+                w = tuple((tuple(st.model.ins[i]), tuple(st.model.outs[i])) for i in range(st.model.n))
+                if w not in st.built: st.built = tuple(sorted(st.built + (w,)))
+            return obs
+        if a[0] == 'repipe':
+            return self._repipe(st)
         m = st.model
         tmo = _tmo
         if a[0] == 'connect':
@@ -433,8 +504,15 @@ class C19(System):
     def _stream(self, st, k):
         return st.streams[k] if k < len(st.streams) else st.spare[k - len(st.streams)]
 
-    def _check_wiring(self, st):
+    def _check_wiring(self, st, harness=False):
         """rewiring is C18's subject; here it only has to have produced the flowsheet the model describes"""
+        try:
+            self._check_wiring_(st)
+        except Rejected:
+            if harness: raise HarnessError(f'flowsheet construction does not match the model: {st.config!r}')
+            raise
+
+    def _check_wiring_(self, st):
         m = st.model
         for i, u in enumerate(st.units):
             if [getattr(x, '_k', None) for x in u._ins._streams] != m.ins[i] or [getattr(x, '_k', None) for x in u._outs._streams] != m.outs[i]:
@@ -461,6 +539,15 @@ class C19(System):
             raise Violation('unexpected-exception', f'Network.from_units raised {type(e).__name__}: {e}',
                             match=dict(base, exc=type(e).__name__), detail=dict(perm=perm))
         undetermined = any('could not be determined' in str(w.message) for w in wlist)
+        net2 = None
+        if self.twice:
+            try:
+                with warnings.catch_warnings():
+                    warnings.simplefilter('ignore')
+                    net2 = _Network.from_units(units)
+            except Exception as e:
+                raise Violation('unexpected-exception', f'second Network.from_units call on the same units raised {type(e).__name__}: {e}',
+                                match=dict(base, exc=type(e).__name__, second=True), detail=dict(perm=perm))
         # ---- flatten
         flat = []; loops = []; foreign = []
         def walk(net, depth):
@@ -514,8 +601,14 @@ class C19(System):
                     raise Violation('against-order-outside-loop',
                                     f'stream {k} ({a}->{b}) runs against the path order {flat} (shape {shape}) but units {a} and {b} are not '
                                     f'inside a common sub-network that carries a recycle (loops: {[sorted(L) for L in loops]}; order given {list(perm)})',
-                                    match=dict(base, forward_edge=(a < b) if not self.history else None), detail=desc)
+                                    match=dict(base, forward_edge=(a < b) if not (self.history or self.rebuild) else None), detail=desc)
             nontriv = against > 0
+        if net2 is not None:
+            sig1 = (_labelled(net, st.units), sorted(repr(r) for r in recycles))
+            sig2 = (_labelled(net2, st.units), sorted(repr(r) for r in net2.get_all_recycles()))
+            if sig1 != sig2:
+                raise Violation('second-build-differs', f'two consecutive Network.from_units calls on the same units in the same order {list(perm)} returned '
+                                f'{sig1} and then {sig2}', match=base, detail=desc)
         st.last = (shape, nontriv)
         return ('net', shape, nrec, against, int(undetermined), int(nontriv), int(cyclic))
 
@@ -526,6 +619,18 @@ class C19(System):
         if obs and obs[0] == 'net':
             return repr((st.model.n, obs[1], obs[2], obs[4], obs[6]))
         return repr(obs)[:80]
+
+
+def _labelled(net, units, depth=0):
+    """nested path with unit labels (for comparing two builds)"""
+    if depth > 50: return '...'
+    out = []
+    for it in net.path:
+        if isinstance(it, _Network): out.append(_labelled(it, units, depth + 1))
+        else: out.append(getattr(it, '_k', repr(it)))
+    r = net.recycle
+    rs = () if not r else tuple(sorted(repr(x) for x in (r if isinstance(r, (set, frozenset, list, tuple)) else [r])))
+    return (tuple(out), rs)
 
 
 def depth_exceeds(net, limit=50):
@@ -564,6 +669,24 @@ def _prio(n):
                 yield cfg + (p,)
     return gen
 
+def simple_dags(n):
+    return edge_multisets(n, maxpar=1)
+
+RB_BASE4 = [(1, 0, 0, 1, 0, 1),     # chain 0->1->2->3
+            (1, 1, 1, 0, 0, 0),     # fan-out from 0
+            (0, 0, 1, 0, 1, 1),     # fan-in to 3
+            (1, 1, 0, 0, 1, 1)]     # diamond 0->1->3, 0->2->3
+
+def _rebuild_cfgs(n, As, layout=0, hs=0):
+    def gen():
+        Bs = simple_dags(n)
+        for MA in (As if As is not None else Bs):
+            for MB in Bs:
+                for sigma in itertools.permutations(range(n)):
+                    if MA == MB and sigma == tuple(range(n)): continue
+                    yield ('rb', n, tuple(MA), tuple(MB), sigma, layout, hs)
+    return gen
+
 def _hist_cfgs(tier):
     # start from the chain and the fan with maximal ports so that connect / cut have room
     def gen():
@@ -577,14 +700,17 @@ def _hist_cfgs(tier):
 SYSTEMS = [
     C19('c19.acyclic.n2-3',
         _chain(_G(2, layouts=(0, 1)), _G(3, layouts=(0, 1))),
-        _chain(_G(2, layouts=(0, 1), hss=(0, 1)), _G(3, layouts=(0, 1), hss=(0, 1)))),
+        _chain(_G(2, layouts=(0, 1), hss=(0, 1)), _G(3, layouts=(0, 1), hss=(0, 1))), twice=True),
     C19('c19.acyclic.n4.dev1', _G(4, ports='dev1'), _G(4, ports='dev1', layouts=(1,))),
     C19('c19.cyclic.n2-3',
         _chain(_G(2, backs=(1, 2, 3), hss=(0, 1)), _G(3, backs=(1, 2, 3), hss=(0, 1))),
-        _chain(_G(2, backs=(1, 2, 3), hss=(0, 1), layouts=(0, 1)), _G(3, backs=(1, 2, 3), hss=(0, 1), layouts=(0, 1)))),
+        _chain(_G(2, backs=(1, 2, 3), hss=(0, 1), layouts=(0, 1)), _G(3, backs=(1, 2, 3), hss=(0, 1), layouts=(0, 1))), twice=True),
     C19('c19.cyclic.n4.min', _G(4, backs=(1, 2, 3), ports='min'), _G(4, backs=(1, 2, 3), ports='dev1', hss=(0,))),
     C19('c19.acyclic.n5.min', _G(5, ports='min'), None, orders='fixed12'),
     C19('c19.history.n3', _hist_cfgs('quick'), _hist_cfgs('thorough'), history=True, depth_q=3, depth_t=4),
+    # build a network, re-pipe THE SAME unit objects into another flowsheet, build again (all unit orders): state kept from the first build must not matter
+    C19('c19.rebuild.n3', _rebuild_cfgs(3, None), _chain(_rebuild_cfgs(3, None), _rebuild_cfgs(3, None, layout=1, hs=1)), rebuild=True, depth_q=3, depth_t=3),
+    C19('c19.rebuild.n4', _rebuild_cfgs(4, RB_BASE4), _rebuild_cfgs(4, None), rebuild=True, depth_q=3, depth_t=3),
     # thorough only
     C19('c19.acyclic.prio', None, _chain(_prio(2), _prio(3))),
     C19('c19.acyclic.n5.min.all-orders', None, _G(5, ports='min')),
